@@ -26,7 +26,7 @@ SHARDS = 16
 GRACE, SHUT = 0.4, 0.4
 HORIZON = 5.0
 
-KINDS = ["idle_keepalive", "partial_head", "inflight_short", "pipelined_behind_inflight", "pipelined_second_inflight", "h2_two_inflight", "inflight_long", "stuck_forever", "unread_response", "unread_response_halfclosed", "h2_open_stream",
+KINDS = ["idle_keepalive", "partial_head", "inflight_short", "upload_inflight", "pipelined_behind_inflight", "pipelined_second_inflight", "h2_two_inflight", "inflight_long", "stuck_forever", "unread_response", "unread_response_halfclosed", "h2_open_stream",
          "h2_idle", "h2_fresh", "h2_reset_idle", "websocket_open"]
 
 
@@ -261,13 +261,14 @@ def run_one(case, tally):
             "/short2": [["recv_until_end"], ["wait", "finish2"], ["respond", 200, [(b"content-length", b"6")], b"short2"]],
             "/long": [["recv_until_end"], ["sleep", 3 * (GRACE + SHUT)], ["respond", 200, [(b"content-length", b"4")], b"long"]],
             "/stuck": [["recv_until_end"], ["wait", "never"], ["respond", 200, [], b"x"]],
+            "/upload": [["recv_until_end"], ["respond", 200, [(b"content-length", b"6")], b"got-20"]],
             "/big": [["recv_until_end"], ["send", {"type": "http.response.start", "status": 200, "headers": []}],
                      ["send_stream", ("c15", 1), big, 65536, True]],
         },
     }
     if case.get("ls"):
         apps["lifespan"] = apps["lifespan"] + ([["sleep", 0.15]] if case["ls"] == "lingers" else [["yield", 2]])
-    cfg = {"graceful_timeout": GRACE if kind not in ("inflight_short", "pipelined_behind_inflight", "pipelined_second_inflight", "h2_two_inflight", "burst_across_trigger", "h2_fresh", "h2_reset_idle") else 3.0, "shutdown_timeout": SHUT, "keep_alive_timeout": 30.0}
+    cfg = {"graceful_timeout": GRACE if kind not in ("inflight_short", "upload_inflight", "pipelined_behind_inflight", "pipelined_second_inflight", "h2_two_inflight", "burst_across_trigger", "h2_fresh", "h2_reset_idle") else 3.0, "shutdown_timeout": SHUT, "keep_alive_timeout": 30.0}
     if case["trigger"] == "max_requests":
         cfg["max_requests"] = 2
     h = ServeHarness(be, cfg, apps)
@@ -293,6 +294,9 @@ def run_one(case, tally):
                 s.sendall(b"GET /partial HTTP/1.1\r\nHos")
             elif kind == "inflight_short":
                 s.sendall(b"GET /short HTTP/1.1\r\nHost: h\r\n\r\n")
+            elif kind == "upload_inflight":
+                # a request in progress that still needs bytes from its client: the rest of its body comes after the trigger
+                s.sendall(b"POST /upload HTTP/1.1\r\nHost: h\r\nContent-Length: 20\r\n\r\n0123456789")
             elif kind == "pipelined_behind_inflight":
                 s.sendall(b"GET /short HTTP/1.1\r\nHost: h\r\n\r\nGET /after-trigger HTTP/1.1\r\nHost: h\r\n\r\n")
             elif kind == "pipelined_second_inflight":
@@ -328,7 +332,7 @@ def run_one(case, tally):
                 s.sendall(ws.handshake(path=b"/ws%d" % i))
                 recv_until(s, b"\r\n\r\n", timeout=1.0)
         # let the server get every request going
-        want_apps = {"inflight_short": "/short", "pipelined_behind_inflight": "/short", "pipelined_second_inflight": "/short", "h2_two_inflight": "/short2", "inflight_long": "/long", "stuck_forever": "/stuck", "unread_response": "/big", "unread_response_halfclosed": "/big", "h2_open_stream": "/stuck", "h2_reset_idle": "/stuck"}.get(kind)
+        want_apps = {"upload_inflight": "/upload", "inflight_short": "/short", "pipelined_behind_inflight": "/short", "pipelined_second_inflight": "/short", "h2_two_inflight": "/short2", "inflight_long": "/long", "stuck_forever": "/stuck", "unread_response": "/big", "unread_response_halfclosed": "/big", "h2_open_stream": "/stuck", "h2_reset_idle": "/stuck"}.get(kind)
         if want_apps:
             end = time.monotonic() + 2.0
             while time.monotonic() < end and sum(1 for e in tr.events if e[2] == "app" and e[3] == "start" and e[4]["scope"].get("path") == want_apps) < len(socks):
@@ -422,6 +426,16 @@ def run_one(case, tally):
                 # "the peer is told to go away": a connection that was busy at the trigger and is closed once its streams have finished
                 # must have carried a GOAWAY before its end (a bare EOF tells an HTTP/2 client nothing about which streams were processed)
                 seen.setdefault("h2_goaway_before_eof", []).append((any(e["t"] == "goaway" for e in evs), eof))
+        if kind == "upload_inflight":
+            time.sleep(0.2)
+            for s in socks:
+                try:
+                    s.sendall(b"abcdefghij")
+                except OSError:
+                    pass
+            for s in socks:
+                data, eof = recv_all(s, timeout=2.0)
+                seen.setdefault("short", []).append(data.endswith(b"got-20"))
         if kind in ("inflight_short", "pipelined_behind_inflight", "pipelined_second_inflight"):
             time.sleep(0.2)
             h.apps.trigger("finish")
@@ -545,7 +559,7 @@ def run_one(case, tally):
             findings.append({"clause": "idle-closed", "sig": "C15.idle-connection-kept-open/%s/%s" % (be, kind.replace("_", "-")), "backend": be,
                              "detail": "HTTP/2 connections without an open stream (nothing but the preface sent / the only request reset by the client): a second after the server had closed an idle HTTP/1.1 "
                                        "connection (3 s of grace period still ahead) they were still open: closed=%r" % seen["fresh_closed"]})
-    if kind in ("inflight_short", "pipelined_behind_inflight", "pipelined_second_inflight", "h2_two_inflight"):
+    if kind in ("inflight_short", "upload_inflight", "pipelined_behind_inflight", "pipelined_second_inflight", "h2_two_inflight"):
         tally.clause("inflight-delivered")
         if not all(seen.get("short", [False])):
             findings.append({"clause": "inflight-delivered", "sig": "C15.inflight-truncated/%s" % be, "backend": be,
